@@ -29,7 +29,7 @@ REQUIRED_COUNTERS = {'models': 40, 'rep.H_MPO': 40, 'rep.H_bond': 10, 'rep.terml
 def plan(tier, seed, jobs):
     q = tier == 'quick'
     return (shard('compiled', 360 if q else 3000, 12, part='random', timeout=3000, time_budget=150 if q else 1500) +
-            shard('compiled', 40 if q else 800, 2, part='infinite', timeout=3000, time_budget=150 if q else 1500) +
+            shard('compiled', 240 if q else 3000, 4, part='infinite', timeout=3000, time_budget=150 if q else 1500) +
             shard('compiled', 40 if q else 600, 2, part='predefined', timeout=3000, time_budget=150 if q else 1500))
 
 
@@ -127,7 +127,7 @@ def rand_strength(rng, shape=None, cplx=False):
     return s
 
 
-def build_model(ctx, rng, lat, explicit_plus_hc=False, allow_exp=True):
+def build_model(ctx, rng, lat, explicit_plus_hc=False, allow_exp=True, long_range=0, force_multi=False):
     """Add random terms; returns (model, calls, reference dense matrix for finite lattices or None)."""
     from tenpy.models.model import CouplingModel
     from vf import dense
@@ -160,8 +160,10 @@ def build_model(ctx, rng, lat, explicit_plus_hc=False, allow_exp=True):
             if plus_hc:
                 ref = ref + T.conj().T
 
-    for _ in range(ncalls):
+    for call_no in range(ncalls):
         kind = str(rng.choice(['add_onsite', 'add_coupling', 'add_coupling', 'add_multi_coupling', 'add_exp', 'add_local_term']))
+        if force_multi and call_no == 0:
+            kind = 'add_multi_coupling'
         cplx = rng.random() < 0.3
         if kind == 'add_onsite':
             u = int(rng.integers(len(uc)))
@@ -191,6 +193,8 @@ def build_model(ctx, rng, lat, explicit_plus_hc=False, allow_exp=True):
             if n1 is None or n2 is None or not neutral([(uc[u1], n1), (uc[u2], n2)]):
                 continue
             dx = [int(rng.integers(-min(2, n), min(2, n) + 1)) for n in lat.Ls]
+            if long_range and rng.random() < 0.5:
+                dx[0] = int(rng.integers(-long_range, long_range + 1))
             if all(d == 0 for d in dx) and u1 == u2:
                 dx[0] = 1
             cshape, _ = lat.coupling_shape(np.array(dx))
@@ -212,10 +216,19 @@ def build_model(ctx, rng, lat, explicit_plus_hc=False, allow_exp=True):
                 hermitian = None if hermitian else hermitian  # cannot tell in general
         elif kind == 'add_multi_coupling':
             nops = int(rng.integers(2, 4))
+            far = None
+            if force_multi and call_no == 0:
+                # three or four operators spread over several unit cells (increasing positions)
+                nops = int(rng.integers(3, 5))
+                far = sorted(int(x) for x in rng.choice(np.arange(1, long_range + 1), size=nops - 1, replace=False))
             ops = []
             for k in range(nops):
                 u = int(rng.integers(len(uc)))
                 dx = [0] * lat.dim if k == 0 else [int(rng.integers(-1, 2)) for _ in lat.Ls]
+                if long_range and k > 0 and rng.random() < 0.6:
+                    dx[0] = int(rng.integers(-long_range, long_range + 1))
+                if far is not None and k > 0:
+                    dx = [far[k - 1]] + [0] * (lat.dim - 1)
                 name = op_names(uc[u], rng, 'bosonic' if rng.random() < 0.6 else 'any')
                 ops.append((name, dx, u))
             if any(o[0] is None for o in ops):
@@ -270,6 +283,8 @@ def build_model(ctx, rng, lat, explicit_plus_hc=False, allow_exp=True):
             lam = float(np.round(rng.uniform(0.2, 0.9), 3))
             plus_hc = bool(rng.random() < 0.5)
             st = rand_strength(rng, None, cplx)
+            if plus_hc and rng.random() < 0.5:
+                lam = complex(lam * np.exp(1j * np.round(rng.uniform(-2, 2), 2)))  # complex decay rate (conjugated in the h.c. part)
             subsites = None
             if rng.random() < 0.3 and lat.N_sites >= 3:
                 subsites = sorted(int(x) for x in rng.permutation(lat.N_sites)[:int(rng.integers(2, lat.N_sites + 1))])
@@ -486,13 +501,40 @@ def case_random(ctx, i):
 
 
 # ------------------------------------------------------------------------------------------------
+def window_matrix(H, n):
+    """Dense operator of the first `n` sites of an (infinite) MPO between the boundary states IdL (left) and IdR (right)."""
+    res = None
+    for i in range(n):
+        W = H.get_W(i)
+        Wd = np.transpose(W.to_ndarray(), [W.get_leg_index(l) for l in ('wL', 'wR', 'p', 'p*')])
+        if res is None:
+            res = np.transpose(Wd[H.get_IdL(0)], (1, 2, 0))
+        else:
+            res = np.einsum('abw,wrpq->apbqr', res, Wd)
+            sh = res.shape
+            res = res.reshape(sh[0] * sh[1], sh[2] * sh[3], sh[4])
+    return res[:, :, H.get_IdR(n - 1)]
+
+
 def case_infinite(ctx, i):
     """Infinite models: energy density of random product/low-chi states vs dense window sums; MPO vs bond form."""
     from tenpy.networks.mps import MPS
     from vf import dense
     rng = ctx.rng
     lat, kind, geo = make_lattice(rng, bc_MPS='infinite', max_dim=64)
-    m, calls, _, terms = build_model(ctx, rng, lat, allow_exp=False)
+    long_range = int(rng.integers(2, 7)) if (lat.dim == 1 or rng.random() < 0.3) and rng.random() < 0.7 else 0
+    force_multi = False
+    if rng.random() < 0.5:
+        # short unit cell + a multi-site coupling reaching over many unit cells (the MPO graph has to carry strings across cells)
+        from tenpy.models import lattice as LAT
+        from vf import dense as _d
+        st_, kind = _d.make_sites(rng, 1, str(rng.choice(['spinhalf_Sz', 'spinhalf', 'fermion_N', 'spinhalf_parity', 'fermion_parity'])))
+        Lc = int(rng.integers(1, 4))
+        lat = LAT.Chain(Lc, st_[0], bc='periodic', bc_MPS='infinite')
+        geo = 'Chain(short cell)'
+        long_range, force_multi = int(rng.integers(4, 9)), True
+        ctx.count('infinite.short_cell_long_multi')
+    m, calls, _, terms = build_model(ctx, rng, lat, allow_exp=False, long_range=long_range, force_multi=force_multi)
     case = {'lattice': geo, 'Ls': list(map(int, lat.Ls)), 'sites': kind, 'calls': calls, 'bc_MPS': 'infinite'}
     ctx.count('infinite.models')
     sites = lat.mps_sites()
@@ -534,8 +576,43 @@ def case_infinite(ctx, i):
         if abs(e_mpo - e_ref) > 1e-9 * max(1.0, abs(e_ref)):
             ctx.violation('infinite:MPO-energy-density-differs-from-recorded-terms', 'H_MPO.expectation_value = %r, dense window sum = %r' % (e_mpo, e_ref), case)
             return
-        # enlarge_mps_unit_cell keeps the energy density
-        m2 = m.copy() if hasattr(m, 'copy') else None
+        # window of the infinite MPO (boundary vectors IdL / IdR): exactly the terms that lie completely inside the window,
+        # i.e. all translates (by whole unit cells) of the recorded terms that fit
+        dloc = [s_.dim for s_ in sites]
+        lo_t = min(min(j for _, j in term) for st, term, phc in terms)
+        hi_t = max(max(j for _, j in term) for st, term, phc in terms)
+        n_cells = (hi_t - lo_t) // L + 2
+        while n_cells > 1 and np.prod([float(d) for d in dloc])**n_cells > 3000:
+            n_cells -= 1
+        Wn = n_cells * L
+        if np.prod([float(d) for d in dloc])**n_cells <= 3000 and Wn >= 2:
+            wsites = [sites[k % L] for k in range(Wn)]
+            Hw = window_matrix(H, Wn)
+            if H.explicit_plus_hc:
+                Hw = Hw + Hw.conj().T
+            D = Hw.shape[0]
+            ref_w = np.zeros((D, D), dtype=complex)
+            n_in = 0
+            for st, term, plus_hc in terms:
+                lo, hi = min(j for _, j in term), max(j for _, j in term)
+                for shift in range(-(hi // L) - 1, n_cells + 1 - (lo // L)):
+                    pos = [(n_, j + shift * L) for n_, j in term]
+                    if min(j for _, j in pos) < 0 or max(j for _, j in pos) >= Wn:
+                        continue
+                    T = st * dense.term_matrix(wsites, pos)
+                    ref_w += T
+                    if plus_hc:
+                        ref_w += T.conj().T
+                    n_in += 1
+            ctx.count('infinite.window_checked')
+            if n_in:
+                ctx.count('infinite.window_with_terms')
+            if any(hi_ - lo_ >= L for lo_, hi_ in [(min(j for _, j in t), max(j for _, j in t)) for _s, t, _p in terms]):
+                ctx.count('infinite.terms_beyond_unit_cell')
+            if np.linalg.norm(Hw - ref_w) > 1e-9 * max(1.0, np.linalg.norm(ref_w)):
+                ctx.violation('infinite:MPO-window-differs-from-recorded-terms', '|window(H_MPO) - sum of the translates of the recorded terms '
+                              'inside %d sites| = %g (|ref| = %g, %d terms inside)' % (Wn, np.linalg.norm(Hw - ref_w), np.linalg.norm(ref_w), n_in), case)
+                return
     except _Skip:
         raise
     except Exception as e:
